@@ -17,7 +17,9 @@ ap.add_argument('--tier', default='quick')
 a = ap.parse_args()
 here = os.path.dirname(os.path.abspath(__file__))
 variants = json.load(open(os.path.join(here, 'variants.json')))
-env = dict(os.environ, VERIF_REPO=a.repo)
+import tempfile
+evdir = tempfile.mkdtemp(prefix='irislint-selftest-')
+env = dict(os.environ, VERIF_REPO=a.repo, VERIF_EVIDENCE_DIR=evdir)
 bad = 0
 ran = 0
 st = subprocess.run(['git', '-C', a.repo, 'status', '--porcelain'], capture_output=True, text=True).stdout.strip()
